@@ -39,6 +39,9 @@ def apply_allele_filter(record, field, func, value):
     else:
         n_alts = len(alts)
     observations = record.info.get(field)
+    if meta.type == 'Float' and observations is not None and (None not in observations):
+        observations = np.array(observations, dtype=np.float32)
+        value = np.float32(value)
     if observations is None or None in observations:
         keep = np.ones(1 + n_alts, dtype=bool)
     elif length == 'R':
